@@ -2,6 +2,8 @@ import Litep2pVerif.Proofs.Addr.Reach
 import Litep2pVerif.Proofs.Addr.Listener
 import Litep2pVerif.Generated.Consts
 import Litep2pVerif.Proofs.Manager.Basic
+import Litep2pVerif.Proofs.Node.Wiring
+import Litep2pVerif.Proofs.Addr.Open
 /-!
 # C10 — Peer address book stays bounded, attributable and dialable
 
@@ -704,3 +706,64 @@ example :
 end Litep2pVerif.Props.C10.Manager
 
 #print axioms Litep2pVerif.Props.C10.Manager.dial_failure_rescored_in_every_state
+/-! ## Wiring — the order in which the transport attempts the addresses of a dial (added after seeded C10-e2)
+
+Over the wiring model `Model/Node/Wiring.lean` (`Node.new c` = `Litep2p::new(ConfigBuilder…build())`, `notes` / `tcpHeld` =
+what the constructed protocol objects / the TCP transport hold, `protocolCodec` = `ProtocolSet::protocol_codec`), tied to
+the real code by the `node` area: real nodes built through the public API print what the CONSTRUCTED objects hold and what
+a connection's `ProtocolSet` answers for every main and fallback name; the driver prints the model's; compared exactly. -/
+namespace Litep2pVerif.Props.C10.Wiring
+open Litep2pVerif Litep2pVerif.Node
+
+/-- Kademlia setter calls of the sample: a later call overrides an earlier one; zero bounds. -/
+def sampleSets : List KadSet := [.maxRecords 5, .replication 3, .maxRecords 0, .maxProviderKeys 0, .validationMode false]
+
+/-- A configuration with fallback names, zero store bounds and non-default transport settings (non-vacuity examples). -/
+def sample : Config :=
+  { keepAliveMs := some 600, listen := [1],
+    notif := [{ name := "/n/new", max := 32, handshake := "01", fallback := ["/n/a"], mode := 'a', sync := some 7, async := none,
+                dial := some false }],
+    rr := [{ name := "/r/new", max := 256, timeoutMs := 800, fallback := ["/r/a", "/r/b"], maxInbound := some 3 }],
+    user := [⟨"/u/a", .identity 8⟩],
+    kad := [{ names := ["/k/2", "/k/1"], max := some 2048,
+              sets := sampleSets }],
+    ping := some 1, identify := true, bitswap := true, maxParallelDials := some 0,
+    tcpSets := [.readAhead 3, .parallelDials 7, .writeBuffer 4] }
+
+/-- `TcpTransport::open` (`Model/Addr/Open.lean`: `stream::iter(addresses).buffer_unordered(n)`): under EVERY schedule of
+completions and every number of dial slots the attempts are STARTED in the order of the list the manager handed over — what
+has been started, followed by what has not been pulled yet, is that list (nothing skipped, nothing reordered); together with
+`dial_order` (that list is sorted by non-increasing score) a dial by peer id tries better-scored addresses first. With one
+dial slot the attempts also FINISH in that order (`ListDialFailures` lists them so): at most one is in flight and what has
+finished followed by it is what has been started. -/
+theorem transport_attempts_in_given_order {α : Type} (n : Nat) (sched : List Nat) (addrs : List α) :
+    (Addr.Open.run n sched addrs).started ++ (Addr.Open.run n sched addrs).pending = addrs ∧
+    (n = 1 → (Addr.Open.run n sched addrs).finished ++ (Addr.Open.run n sched addrs).inflight =
+        (Addr.Open.run n sched addrs).started ∧ (Addr.Open.run n sched addrs).inflight.length ≤ 1) := by
+  refine ⟨Addr.Open.run_inv n sched addrs, ?_⟩
+  intro h
+  subst h
+  exact Addr.Open.run_seq sched addrs
+
+example : (Addr.Open.run 1 [5, 0, 3] ["d1", "x2", "x3"]).finished = ["d1", "x2", "x3"] := by decide
+example : (Addr.Open.run 1 [5] ["d1", "x2", "x3"]).started = ["d1", "x2"] := by decide
+-- two slots: started in order, finished as the network decides
+example : (Addr.Open.run 2 [1, 0, 0] ["d1", "x2", "x3"]).started = ["d1", "x2", "x3"] ∧
+    (Addr.Open.run 2 [1, 0, 0] ["d1", "x2", "x3"]).finished = ["x2", "d1", "x3"] := by decide
+
+/-- The number of dial slots of the TCP transport is the top-level `with_max_parallel_dials` setting (at least 1; the
+crate default when not called) — whatever `max_parallel_dials` the user's `tcp::config::Config` carried. -/
+theorem max_parallel_dials_reaches_transport (c : Config) :
+    (tcpHeld (build c)).maxParallelDials =
+      match c.maxParallelDials with
+      | some n => max n 1
+      | none => Consts.NODE_MAX_PARALLEL_DIALS := by
+  cases h : c.maxParallelDials <;> simp [tcpHeld, build, h]
+
+example : (tcpHeld (build sample)).maxParallelDials = 1 := by decide
+example : (tcpHeld (build { sample with maxParallelDials := none })).maxParallelDials = 8 := by decide
+
+end Litep2pVerif.Props.C10.Wiring
+
+#print axioms Litep2pVerif.Props.C10.Wiring.transport_attempts_in_given_order
+#print axioms Litep2pVerif.Props.C10.Wiring.max_parallel_dials_reaches_transport
